@@ -38,13 +38,30 @@ impl<const N: usize, Value> IndexMap<N, Value> {
 
     #[inline(always)]
     pub(crate) unsafe fn delete(&mut self, index: usize) {
-        *self.index.get_unchecked_mut(index) = Self::NULL
+        /*
+            remove the entry itself, not only the pointer to it: left entries
+            made `values` grow with every `delete` + `set` pair until
+            `values.len() as u8` reached `NULL` and then wrapped around
+        */
+        let position = std::mem::replace(self.index.get_unchecked_mut(index), Self::NULL);
+        if position != Self::NULL {
+            self.values.remove(position as usize);
+            for (i, _) in self.values.get_unchecked(position as usize..) {
+                *self.index.get_unchecked_mut(*i) -= 1;
+            }
+        }
     }
 
     #[inline(always)]
     pub(crate) unsafe fn set(&mut self, index: usize, value: Value) {
-        *self.index.get_unchecked_mut(index) = self.values.len() as u8;
-        self.values.push((index, value));
+        match *self.index.get_unchecked(index) {
+            Self::NULL => {
+                /* `values` holds live entries only: at most N ( < NULL ) */
+                *self.index.get_unchecked_mut(index) = self.values.len() as u8;
+                self.values.push((index, value));
+            }
+            position => self.values.get_unchecked_mut(position as usize).1 = value
+        }
     }
 
     #[inline(always)]
